@@ -138,3 +138,105 @@ Theorem c20_deploy_pool_own_key :
            (observe_all sigv verify (deploy_certs d) (outs sigv (dfinal sigv sign verify d g ps ws wsched))).
 Proof. exact deploy_pool_holds. Qed.
 Print Assumptions c20_deploy_pool_own_key.
+
+(* Configuration objects.  Whatever a configuration object was derived from - loaded from a fresh dict, a
+   copy.copy of another entity's Config with key_file/cert_file overridden, a reload of a dict that served
+   before - the entities of a deployment load the same keys and certificates: only the path the object names
+   when the entity is built counts (c20_deploy_own_pair: and that is the pair they publish) *)
+Theorem c20_config_origin_irrelevant :
+  forall d, deploy_keys (map forget_origin d) = deploy_keys d /\ deploy_certs (map forget_origin d) = deploy_certs d.
+Proof. exact lineage_irrelevant. Qed.
+Print Assumptions c20_config_origin_irrelevant.
+
+(* ---- Source tie, translator v2 (C20/Source2.v): the translated CURRENT text of the anchored functions
+   (coq/gen/C20Src2.v, regenerated on every run) equals the hand-written model on the whole input domain ---- *)
+From Coq Require Import String ZArith.
+From Verif Require Import Base.Py Base.Py2 C20.Source2.
+From VerifGen Require Import C20Src2.
+Open Scope string_scope.
+
+(* sigver.RSACrypto.get_signer + the module table SIGNER_ALGS: for every entity key, every SigAlg str, every
+   explicit sigkey (or none) the result is the model's IGet (Model.exec, current code): a signer OF THE CALL with
+   the table entry's digest and `sigkey or self.key`; None for a SigAlg outside the table *)
+Theorem c20_source2_get_signer : forall k s sk,
+  src2_get_signer (enc_crypto k) (PStr s) (enc_okey sk) = enc_osobj (m_get k (alg_of s) sk).
+Proof. exact src2_get_signer_is_model. Qed.
+Print Assumptions c20_source2_get_signer.
+
+(* sigver.RSASigner.sign (no key argument, as http_redirect_message calls it) = the model's ISign: the signer's
+   own key and digest; a signer without key raises *)
+Theorem c20_source2_sign :
+  forall (key_sign : pyval -> pyval -> pyval -> pyval) (sign_s : nat -> nat -> string -> string),
+    (forall k d m, key_sign (enc_key k) (PStr m) (PStr (digest_name d)) = PStr (sign_s k d m)) ->
+    (forall m d, key_sign PNone m d = PExc "AttributeError") ->
+    forall o m, src2_sign key_sign (enc_sobj o) (PStr m) PNone = enc_sig_result (m_sign sign_s o m).
+Proof. exact src2_sign_is_model. Qed.
+Print Assumptions c20_source2_sign.
+
+(* sigver.RSASigner.verify = the model's IVerify: the key passed, else the signer's own (`por vk (skey o)`) *)
+Theorem c20_source2_verify :
+  forall (key_verify : pyval -> pyval -> pyval -> pyval -> pyval) (verify_s : nat -> nat -> string -> string -> bool),
+    (forall k d m s, key_verify (enc_key k) (PStr s) (PStr m) (PStr (digest_name d)) = PBool (verify_s k d m s)) ->
+    (forall s m d, key_verify PNone s m d = PExc "AttributeError") ->
+    forall o m s vk,
+      src2_verify key_verify (enc_sobj o) (PStr m) (PStr s) (enc_okey vk) = enc_ver_result (m_verify verify_s o m s vk).
+Proof. exact src2_verify_is_model. Qed.
+Print Assumptions c20_source2_verify.
+
+(* pack.http_redirect_message, sign=True, typ SAMLRequest / SAMLResponse, any message / RelayState / location / SigAlg
+   str, the backend of entity `own`: the answer is the model's result for OSign (Proofs.op_result) - not allowed: raises;
+   allowed: the Location carries the signature made with the key OF THAT BACKEND and the digest of the SigAlg over the
+   octets typ, RelayState, SigAlg *)
+Theorem c20_source2_http_redirect_message :
+  forall (key_sign : pyval -> pyval -> pyval -> pyval) (sign_s : nat -> nat -> string -> string),
+    (forall k d m, key_sign (enc_key k) (PStr m) (PStr (digest_name d)) = PStr (sign_s k d m)) ->
+    forall (urlencode_s deflate_s b64_s : pyval -> string) (add_query_s encode_s : pyval -> pyval -> string)
+           (key_of : nat -> nat) (mtext mrelay : nat -> string) (mresp : nat -> bool)
+           (verify : nat -> nat -> payload -> string -> bool) (loc : string) (own m : nat) (s : string),
+      src2_http_redirect_message key_sign (fun v => PStr (urlencode_s v)) (fun v => PStr (deflate_s v))
+        (fun a b => PStr (add_query_s a b)) (fun v => PStr (b64_s v)) (fun a b => PStr (encode_s a b))
+        (PStr (mtext m)) (PStr loc) (PStr (mrelay m)) (PStr (typ_name (mresp m))) (PStr s) (PBool true)
+        (enc_crypto (key_of own))
+      = enc_sign_res urlencode_s deflate_s b64_s add_query_s mtext mrelay mresp loc
+          (op_result string (m_sign_fn sign_s urlencode_s deflate_s encode_s mtext mrelay mresp) verify key_of own
+             (OSign (alg_of s) m)).
+Proof. exact src2_http_redirect_message_is_model. Qed.
+Print Assumptions c20_source2_http_redirect_message.
+
+(* config.Config.getattr with context "" (what security_context passes) is getattr(self, attr, None) *)
+Theorem c20_source2_config_getattr : forall conf nm,
+  is_bad conf = false -> dyn_name_ok nm = true ->
+  src2_config_getattr conf (PStr nm) (PStr "") = p2_getattr3 conf nm PNone.
+Proof. exact src2_config_getattr_plain. Qed.
+Print Assumptions c20_source2_config_getattr.
+
+(* sigver.security_context on ANY Config object that names path p - whatever further attributes it carries, whatever
+   it was copied from - is the model's build_at: sec_backend = RSACrypto(the key installed at p NOW), my_cert = the
+   certificate installed at p NOW (or the constructor raises when nothing is installed), and the Config object is
+   left as it was *)
+Theorem c20_source2_security_context :
+  forall (import_key read_cert path_exists find_xmlsec : pyval -> pyval) (xmlsec_backend : pyval -> pyval -> pyval)
+         (key_path cert_path : nat -> string) (fs : fsys) (bin : string) (crypto : pyval),
+    (forall p, Str.is_empty (key_path p) = false) ->
+    Str.is_empty bin = false ->
+    path_exists (PStr bin) = PBool true ->
+    (forall dt : bool, xmlsec_backend (PStr bin) (PBool dt) = crypto) ->
+    is_bad crypto = false ->
+    (forall p, import_key (PStr (key_path p)) = match fread fs p with Some k => enc_key k | None => PExc "OSError" end) ->
+    (forall p, read_cert (PStr (cert_path p)) = match fread fs p with Some c => enc_cert c | None => PExc "OSError" end) ->
+    forall p md dt eks extra,
+      is_bad md = false ->
+      src2_security_context import_key read_cert path_exists find_xmlsec xmlsec_backend
+        (enc_conf key_path cert_path bin p md dt eks extra)
+      = enc_build key_path cert_path crypto p md eks (enc_conf key_path cert_path bin p md dt eks extra) (build_at fs p).
+Proof. exact src2_security_context_is_model. Qed.
+Print Assumptions c20_source2_security_context.
+
+(* Config.getattr with context None: the object's own context decides - "" plain, otherwise _<context>_<attr> *)
+Theorem c20_source2_config_getattr_context : forall c f nm ctx,
+  assoc_py "context" (("__class__", PStr c) :: f) = Some (PStr ctx) ->
+  src2_config_getattr (PObj (("__class__", PStr c) :: f)) (PStr nm) PNone
+  = if Str.is_empty ctx then p2_getattr3_dyn (PObj (("__class__", PStr c) :: f)) (PStr nm) PNone
+    else p2_getattr3_dyn (PObj (("__class__", PStr c) :: f)) (PStr ("_" ++ ctx ++ "_" ++ nm)) PNone.
+Proof. exact src2_config_getattr_context. Qed.
+Print Assumptions c20_source2_config_getattr_context.
